@@ -8,7 +8,8 @@ from vlib import C, JOBS, Raw, coq_eval_cases, rng_for, run_impl_worker
 IMPORTS = "Base.Prelude Model.Capture"
 TRUSTED = ["Coq kernel, vm_compute", "POSIX descriptor inheritance, Python stream buffering and UTF-8 decoding (the model has no buffering; "
            "payloads are flushed between levels except in fd mode, where order must hold without flushing)", "rich's own terminal output is ignored (payloads carry unique tags)", "harness"]
-PAYLOADS = ["hello", "line\n", "no-newline", "", "crlf\r\n", "tab\tsep", "ünïcödé ✓\n", "中文", "a\n\nb\n", " ", "\r", "x" * 300 + "\n"]
+PAYLOADS = ["hello", "line\n", "no-newline", "", "crlf\r\n", "tab\tsep", "ünïcödé ✓\n", "中文", "a\n\nb\n", " ", "\r", "x" * 300 + "\n",
+            "[info] done [/info]\n", "[#tag] @[x] [/]\n", "[bold red]alert[/bold red]", "tail\\", "a\\[b]\n"]
 METHODS = {"fd": "MFd", "sys": "MSys", "tee-sys": "MTee", "no": "MNo"}
 
 
